@@ -39,6 +39,7 @@ type Worker struct {
 	index     *CorpusIndex
 	need      []string
 	afterInit func()
+	stripped  bool
 	ref       *Corpus // independent second load, used only by the reference model
 	refTable  *RefTable
 	infos     []*linter.CheckerInfo
@@ -334,6 +335,10 @@ func (w *Worker) execOne(rc *simapi.RunConfig) {
 		r = w.runC04Analyzer(rc)
 	case "analyzer-config":
 		r = w.runC19(rc)
+	case "decl-perm":
+		r = w.runC13Perm(rc)
+	case "source-transform":
+		r = w.runC13Source(rc)
 	case "rulefs":
 		r = w.runC18(rc)
 	case "lib-frame":
@@ -385,6 +390,8 @@ func (w *Worker) generate(prop, tier string, seed uint64, i int) (*simapi.RunCon
 		w.genC04(rc)
 	case "C05":
 		w.genC05(rc)
+	case "C13":
+		w.genC13(rc)
 	case "C18":
 		w.genC18(rc)
 	case "C19":
